@@ -294,6 +294,9 @@ func fastqDrive(args []string) error {
 				Bytes: []int{}, Recs: []fqItem{}, Items: []fqItem{}}
 			buf := &bytes.Buffer{}
 			before := fqProject(f)
+			if sid%4 == 1 {
+				failedWriteFirst(f.Write)
+			}
 			ev.Panic, _ = catch(func() { ev.WErr = f.Write(buf) != nil })
 			var bm []byte
 			ev.MPanic, _ = catch(func() {
